@@ -169,7 +169,7 @@ func TestC09(t *testing.T) {
 
 func TestC10(t *testing.T) {
 	RunSeq(t, SeqCheck{
-		Prop: "C10",
+		Prop: "C10", FaultPct: 4,
 		Profile: Profile{Name: "failing-commands", Weights: weightsWith(map[string]int{"set": 34, "new_task": 22, "sequence": 16, "plan": 6, "claim_id": 8, "new_epic": 5}),
 			BadRef: 25, Spoil: 45, Results: 25, HoldLock: 6, MinSteps: 6, MaxSteps: 30},
 		Rule: "random command histories in which about half the commands are built to fail (bad state value, blank title, unknown key, malformed / double JSON, unknown / pruned id, illegal transition, missing claim, cycle, self / cross-kind edge, bad result path or summary, lock held by the harness); non-trivial = a failing command that carries >= 2 fields or edges, or targets an existing item" + distinctRule,
@@ -249,7 +249,7 @@ func TestC15(t *testing.T) {
 		Prop: "C15",
 		Profile: Profile{Name: "two-level-graphs", Weights: weightsWith(map[string]int{"sequence": 36, "new_task": 20, "new_epic": 10, "set": 22, "plan": 3, "prune_yes": 3, "claim": 1, "claim_id": 0, "sequence_rm": 5, "compact": 2}),
 			BadRef: 2, Spoil: 0, Results: 0, MinSteps: 10, MaxSteps: 36, EpicPct: 80, SeqEpicPct: 40,
-			StatePool: []string{"done", "canceled", "todo", "todo", "done"}, StatePct: 30, ClaimPct: -1, MixedPct: 55},
+			StatePool: []string{"done", "canceled", "todo", "todo", "done"}, StatePct: 30, ClaimPct: -1, MixedPct: 70},
 		Rule: "random command histories over two-level graphs (task edges across epics, epic edges, tasks moved between epics, prune, plan); after every step: if some task is todo and none is doing/blocked/error, some task must be ready and `claim` on a copy of the store must not say no_ready; non-trivial = at some step the precondition holds while an epic edge and a task edge between tasks of different epics coexist" + distinctRule,
 		NonTrivial: func(h []stepInfo) bool {
 			return anyStep(h, func(s stepInfo) bool {
